@@ -51,7 +51,7 @@ def _corpus():
 def cases(rng: random.Random, tier: str):
     nmax = 5 if tier == "quick" else 6
     out = [dict(c) for c in _corpus()]
-    n = 700 if tier == "quick" else 5000
+    n = 2600 if tier == "quick" else 18000
     for k in range(n):
         g = R.gen_graph(rng, 3, nmax if k % 3 else 4)
         nodes = G.all_nodes(g)
